@@ -324,6 +324,13 @@ def make(spec):
     from polliwog.transform import (cv2_rodrigues, rodrigues_vector_to_rotation_matrix,
                                     rotation_matrix_to_rodrigues_vector)
     jac = bool(spec["jac"])
+    # both spellings of the documented signature `f(r, calculate_jacobian=False)`: by keyword, and (for every other spec, by a
+    # hash of the spec so that it replays) by position
+    import zlib
+    if zlib.crc32(repr(sorted(spec.items(), key=lambda kv: kv[0])).encode()) % 2:
+        cv2_rodrigues, rodrigues_vector_to_rotation_matrix, rotation_matrix_to_rodrigues_vector = [
+            (lambda f: (lambda a, calculate_jacobian=False: f(a, calculate_jacobian)))(f)
+            for f in (cv2_rodrigues, rodrigues_vector_to_rotation_matrix, rotation_matrix_to_rodrigues_vector)]
     if spec["op"] == "fwd":
         arr = np.array(np.reshape(spec["r"], spec["shape"]), dtype=np.float64)
         th = math.sqrt(sum(Fraction(float(x)) ** 2 for x in spec["r"]))
